@@ -145,6 +145,8 @@ def _lead(res):
 def vclass(res):
     if res.get("outcome") != "violation":
         return None
+    if _lead(res).get("kind") == "power-reduction":
+        return "power-reduction"
     return "out-of-type:" + ",".join(str(int(b)) for b in _sig(_lead(res)))
 
 
@@ -157,6 +159,9 @@ def finding_signature(res, case):
 
 def describe_violation(res):
     p = _lead(res)
+    if p.get("kind") == "power-reduction":
+        return (f"power {p['power']} of variable {p['var']} (values {p['values']}) is rewritten to `{p['reduced']}`, which differs from "
+                f"the power at value {p['value']}\nnormalised program:\n{res.get('normalized')}")
     return (f"variable {p['var']} holds {p['value']} outside inferred type {p['type']} at {p['phase']} iteration {p['iteration']} "
             f"stmt `{p['assignment']}` (via_default={p['via_default']}, source guard false={p['source_guard_false']}, "
             f"default is other var={p['default_is_other_var']}); exact evaluator: {p.get('exact_value')}\nnormalised program:\n{res.get('normalized')}")
